@@ -21,18 +21,35 @@ VEC_RULE = ("random operation histories over a pool of 4 same-typed vectors + 2 
             "(default construction, destruction) are not counted. ")
 
 
+def _with_sets(prop, tier, flat=True, small_space=True, small_hist=True):
+    """vector histories + the set engines, for the properties whose quantifier covers vectors and sets"""
+    cov, viols, inc = vec.run(prop, tier)
+    if flat:
+        c2, v2, i2 = sets.run_engine(prop, tier, sets.flatset_cfgs(tier), 300, 3000, crash_owners=("C03", "C02"))
+        cov, viols, inc = sets.merge_cov(cov, c2), viols + v2, inc + i2
+    if small_space:
+        c3, v3, i3 = sets.run_space(prop, tier, ("C04", "C11", "C02"))
+        cov, viols, inc = sets.merge_cov(cov, c3), viols + v3, inc + i3
+    if small_hist:
+        cfgs = sets.SS_HIST_QUICK + (sets.SS_HIST_THOROUGH if tier == "thorough" else [])
+        c4, v4, i4 = sets.run_engine(prop, tier, cfgs, 200, 3000, ops=80, crash_owners=("C04", "C11", "C02"))
+        cov, viols, inc = sets.merge_cov(cov, c4), viols + v4, inc + i4
+    return cov, viols, inc
+
+
 def c02(tier):
     t0 = time.time()
-    cov, viols, inc = vec.run("C02", tier)
-    cov["rule"] = VEC_RULE + ("Judge: element ledger (identity, lifetime, moved-from flag, self pointer of non relocatable elements, self move-assignment) "
-                              "evaluated after every call and at the end of every history, plus ASan/UBSan/LSan.")
+    cov, viols, inc = _with_sets("C02", tier)
+    cov["rule"] = VEC_RULE + ("The same for FlatSet pools and SmallSet pools (random histories and the complete small-scope SmallSet state space). "
+                              "Judge: element ledger (identity, lifetime, moved-from flag, self pointer of non relocatable elements, self move-assignment "
+                              "in the vector engines) evaluated after every call and at the end of every history, plus ASan/UBSan/LSan.")
     return core.finish("C02", tier, "exploration", cov, viols, inc, t0, ASSUME_SAN, min_evals=1000)
 
 
 def c05(tier):
     t0 = time.time()
-    cov, viols, inc = vec.run("C05", tier)
-    cov["rule"] = VEC_RULE + ("Judge: entitlement shadow taken literally from the statement (entitled at construction, after shrink_to_fit with size<=N, after "
+    cov, viols, inc = _with_sets("C05", tier, flat=False)
+    cov["rule"] = VEC_RULE + ("SmallSet: complete small-scope state space and random histories with the shadow 'has never held more than N elements'. ""Judge: entitlement shadow taken literally from the statement (entitled at construction, after shrink_to_fit with size<=N, after "
                               "being moved from; lost when size or reserve exceeds N or a heap buffer is adopted): entitled SmallVectors must report capacity()==N, "
                               "keep data() inside the object and cause no allocator/malloc request; FixedCapacityVector never allocates and begin() is constant.")
     cov["explanation_counters"] = "observed.entitled_calls = calls judged by the no-allocation rule; observed.unentitled_alloc_calls shows the allocation counter is alive"
@@ -41,7 +58,7 @@ def c05(tier):
 
 def c06(tier):
     t0 = time.time()
-    cov, viols, inc = vec.run("C06", tier)
+    cov, viols, inc = _with_sets("C06", tier, small_space=False)
     cov["rule"] = VEC_RULE + ("Judge: allocator ledger (pointer -> byte count, allocator family) checked on every allocate/deallocate/reallocate, zero outstanding "
                               "blocks when all containers of a history are destroyed; reallocate only for relocatable element types with true old capacity "
                               "and live count; LeakSanitizer for the stock allocators.")
@@ -66,6 +83,37 @@ def c03(tier):
     return core.finish("C03", tier, "exploration", cov, viols, inc, t0, ASSUME_SAN, min_evals=1000)
 
 
+SS_RULE = ("(a) complete small-scope state space: breadth-first search over the abstract states (inline element order | large content) of a SmallSet with "
+           "N in {1,2,3} and keys 0..4, executing from every state every operation x argument (insert/emplace/hint/erase key/erase position/erase range/"
+           "extract/insert(node)/clear/copy/move/assign/ranges of length<=3/erase-while-iterating for every subset) on the real object, then every ordered "
+           "pair of reached states under swap, comparison operators and merge (same type and another N/comparator); (b) random histories for N in {4,8}. "
+           "Every edge is judged by a std::set model; iterators returned by the library are validated against a fresh walk before being dereferenced. "
+           "distinct cell = (configuration, operation, state class, argument class)")
+
+
+def _smallset(prop, tier, owners):
+    t0 = time.time()
+    cov1, v1, i1 = sets.run_space(prop, tier, owners)
+    cfgs = sets.SS_HIST_QUICK + (sets.SS_HIST_THOROUGH if tier == "thorough" else [])
+    cov2, v2, i2 = sets.run_engine(prop, tier, cfgs, 200, 3000, ops=80, crash_owners=owners)
+    cov = sets.merge_cov(cov1, cov2)
+    for k in ("states", "transitions", "per_configuration", "exhaustive"):
+        cov[k] = cov1[k]
+    cov["rule"] = SS_RULE
+    cov["exhaustive_scope"] = "small-scope state space only (N<=3, 5 keys); the random histories are a sample"
+    return cov, v1 + v2, i1 + i2, t0
+
+
+def c04(tier):
+    cov, viols, inc, t0 = _smallset("C04", tier, ("C04", "C02"))
+    return core.finish("C04", tier, "exploration", cov, viols, inc, t0, ASSUME_SAN, min_evals=1000)
+
+
+def c11(tier):
+    cov, viols, inc, t0 = _smallset("C11", tier, ("C11", "C04", "C02"))
+    return core.finish("C11", tier, "exploration", cov, viols, inc, t0, ASSUME_SAN, min_evals=1000)
+
+
 def setup():
     specs = [c.spec() for c in vec.QUICK]
     core.build_many(specs)
@@ -73,4 +121,4 @@ def setup():
     return 0
 
 
-CHECKS = {"C01": c01, "C02": c02, "C05": c05, "C06": c06, "C07": c07, "C03": c03}
+CHECKS = {"C01": c01, "C02": c02, "C05": c05, "C06": c06, "C07": c07, "C03": c03, "C04": c04, "C11": c11}
